@@ -37,7 +37,7 @@ CORE_LABELS = {"add_ok", "add_refused_dup", "add_refused_limit", "add_refused_du
                "add_refused_limit_scoped"}
 E_ACTIONS = ["Add", "AddNotStarted", "Remove", "ContPlain", "ContScopeEnd", "ContClone", "ContThreadExit",
              "ContExit", "Restart"]
-COST = {"launch": 5.0, "restart": 5.0, "cont": 0.03, "other": 0.004}   # planning estimates, seconds under load
+COST = {"launch": 10.0, "restart": 10.0, "cont": 0.03, "other": 0.004}   # planning estimates, seconds under load
 
 
 # ------------------------------------------------------------------------------------------------
@@ -584,6 +584,23 @@ def tlc_parallel(jobs):
     return out
 
 
+def selftest(exe, puppet, lines):
+    """does this host deliver hardware data breakpoints (reading rule R4)?"""
+    WORK.mkdir(parents=True, exist_ok=True)
+    stj, sto = WORK / f"selftest-{os.getpid()}.json", WORK / f"selftest-{os.getpid()}.out"
+    stj.write_text(json.dumps(job_base(puppet, lines, writes=True)))
+    p = subprocess.run([exe, "selftest", str(stj), str(sto)], stdout=subprocess.DEVNULL, stderr=subprocess.DEVNULL,
+                       start_new_session=True, timeout=170)
+    if p.returncode != 0 or not sto.exists():
+        raise vlib.ToolError(f"delivery self-test failed rc={p.returncode}")
+    st = json.loads(sto.read_text())
+    for f in (stj, sto, Path(str(sto) + ".log")):
+        f.unlink(missing_ok=True)
+    if not st["add"].get("ok"):
+        raise vlib.ToolError(f"self-test could not set a watchpoint: {st['add']}")
+    return bool(st["delivered"])
+
+
 def _try(f):
     try:
         return f()
@@ -643,6 +660,9 @@ def run(rep, tier, replay):
     bg = {}
     bgt = threading.Thread(target=lambda: bg.update(r=_try(lambda: tlc_parallel(slow))))
     bgt.start()            # the exhaustive runs go on while the behaviours are replayed
+    stbox = {}
+    stt = threading.Thread(target=lambda: stbox.update(r=_try(lambda: selftest(exe, puppet, lines))))
+    stt.start()
     tl = tlc_parallel(jobs)
     D, G = tl["D"], tl["G"]
 
@@ -661,20 +681,10 @@ def run(rep, tier, replay):
         raise vlib.ToolError(f"DR7 table has {len(rows)} rows, expected 9^4")
     n_dr7, bad_dr7 = dr7_leg(rep, exe, rows)
 
-    # ---- does this host deliver data breakpoints (reading rule R4)?
-    WORK.mkdir(parents=True, exist_ok=True)
-    stj, sto = WORK / f"selftest-{os.getpid()}.json", WORK / f"selftest-{os.getpid()}.out"
-    stj.write_text(json.dumps(job_base(puppet, lines, writes=True)))
-    p = subprocess.run([exe, "selftest", str(stj), str(sto)], stdout=subprocess.DEVNULL, stderr=subprocess.DEVNULL,
-                       start_new_session=True, timeout=120)
-    if p.returncode != 0 or not sto.exists():
-        raise vlib.ToolError(f"delivery self-test failed rc={p.returncode}")
-    st = json.loads(sto.read_text())
-    for f in (stj, sto, Path(str(sto) + ".log")):
-        f.unlink(missing_ok=True)
-    delivered = bool(st["delivered"])
-    if not st["add"].get("ok"):
-        raise vlib.ToolError(f"self-test could not set a watchpoint: {st['add']}")
+    stt.join()
+    if isinstance(stbox["r"], Exception):
+        raise stbox["r"]
+    delivered = stbox["r"]
 
     # ---- generation graph -> walk plan -> replay
     edges = vlib.printed(G.out, "EDGE")
@@ -682,19 +692,21 @@ def run(rep, tier, replay):
         raise vlib.ToolError(f"{len(edges)} edges printed but TLC generated {G.generated} states")
     g = Graph(edges)
     terminal = known_terminal_labels(rep)
-    workers = 8
+    # a launch / restart of the debugger is internally parallel (and clones every parsed unit): few long
+    # sessions beat many short ones
+    workers = 4 if quick else 6
     if quick:
-        nseg, seg_budget, total = workers, 45.0, None
+        nseg, seg_budget, total = workers, 60.0, None
     else:
-        nseg, seg_budget, total = 64, 150.0, 8 * 900.0
+        nseg, seg_budget, total = 60, 400.0, 6 * 1000.0
     segs, terms, covered = plan(g, terminal, nseg, seg_budget, rng, total)
     if quick:
         rng.shuffle(terms)
-        terms = terms[:12]
+        terms = terms[:6]
     scripts = [(f"w{i}", script_of(p)) for i, p in enumerate(segs)] + [(f"t{i}", script_of(p)) for i, p in enumerate(terms)]
     vlib.log(f"[plan] {len(g.out)} nodes {len(g.e)} edges; {len(segs)} walks ({sum(map(len, segs))} commands, "
              f"{len(covered)} distinct edges) + {len(terms)} terminal scripts; {time.time() - t0:.0f}s so far")
-    res = run_jobs(exe, job_base(puppet, lines), scripts, workers, 80 if quick else 1300)
+    res = run_jobs(exe, job_base(puppet, lines), scripts, workers, 100 if quick else 1400)
     bgt.join()
     if isinstance(bg["r"], Exception):
         raise bg["r"]
